@@ -214,6 +214,13 @@ pub fn gen(rng: &mut ChaCha20Rng, n: usize, thorough: bool) -> Vec<Case> {
         scripts.push(s);
     }
     for s in &scripts { out.push(mk(format!("C10 script {}", hexd(s)), &["ep:Script-instructions-asm-templates", if s.len() <= 2 { "src:enumerated" } else { "src:random-bytes" }], true)); }
+    // truncated pushes: every push form x declared length (small and boundary) x every cut from "opcode only" to "complete + 1"
+    // (all cuts for short pushes; for long ones the cuts inside / right after the length field and within 3 bytes of the end), alone and
+    // after a valid prefix; the OP_RETURN prefixes also go through is_null_data / is_pegout / pegout_data
+    for (script, tag) in truncated_pushes() {
+        out.push(mk(format!("C10 script {}", hexd(&script)), &["ep:Script-instructions-asm-templates", tag], true));
+        if script.first() == Some(&0x6a) { out.push(mk(format!("C10 pegout e {}", hexd(&script)), &["ep:TxOut::pegout_data", tag], true)); }
+    }
     for _ in 0..n / 2 { let l = rng.gen_range(0..7); out.push(mk(format!("C10 rint {}", hexd(&rbytes(rng, l))), &["ep:read_scriptint", "src:random-bytes"], true)); }
 
     // read_uint with every size 0..=17 (F19 for sizes >= 9 when that many bytes are there)
@@ -421,6 +428,44 @@ pub fn gen(rng: &mut ChaCha20Rng, n: usize, thorough: bool) -> Vec<Case> {
         };
         if s.contains(' ') { continue; }
         out.push(mk(format!("C10 x-text {}", strhex(&s)), &["ep:explore-text-parsers", "src:generated"], true));
+    }
+    out
+}
+/// the truncation family of the four push forms (shared with C16's script stream)
+pub fn truncated_pushes() -> Vec<(Vec<u8>, &'static str)> {
+    let mut out: Vec<(Vec<u8>, &'static str)> = Vec::new();
+    let forms: [(&'static str, usize, &[usize]); 4] = [
+        ("src:truncated-direct-push", 0, &[1, 2, 3, 5, 32, 74, 75]),
+        ("src:truncated-pushdata1", 1, &[0, 1, 2, 3, 5, 75, 76, 255]),
+        ("src:truncated-pushdata2", 2, &[0, 1, 2, 3, 5, 255, 256, 260]),
+        ("src:truncated-pushdata4", 4, &[0, 1, 2, 3, 5, 256, 65536 + 3]),
+    ];
+    let mut genesis_prefix = vec![0x6au8, 0x20]; genesis_prefix.extend([0x11u8; 32]);
+    let prefixes: [Vec<u8>; 4] = [vec![], vec![0x51], vec![0x6a], genesis_prefix];
+    for (tag, width, ns) in forms {
+        for &n in ns {
+            let mut full: Vec<u8> = match width {
+                0 => vec![n as u8],
+                1 => vec![0x4c, n as u8],
+                2 => { let mut v = vec![0x4d]; v.extend((n as u16).to_le_bytes()); v }
+                _ => { let mut v = vec![0x4e]; v.extend((n as u32).to_le_bytes()); v }
+            };
+            let header = full.len();
+            full.extend((0..n).map(|i| (i as u8).wrapping_mul(7).wrapping_add(2)));
+            let total = full.len();
+            // cut lengths: 1..=header+1 (opcode only, length field truncated byte by byte, header only, header + 1), the last 3 before the
+            // end, complete, complete + 1; every cut when the push is short
+            let mut cuts: Vec<usize> = if total <= 12 { (1..=total + 1).collect() } else { let mut c: Vec<usize> = (1..=header + 1).collect(); c.extend([total - 3, total - 2, total - 1, total, total + 1]); c };
+            cuts.sort(); cuts.dedup();
+            for (pi, prefix) in prefixes.iter().enumerate() {
+                if n > 300 && pi != 0 && pi != 2 { continue; }
+                for &c in &cuts {
+                    let mut s = prefix.clone();
+                    if c <= total { s.extend(&full[..c]); } else { s.extend(&full); s.push(0x51); }
+                    out.push((s, tag));
+                }
+            }
+        }
     }
     out
 }
